@@ -586,7 +586,7 @@ def predict(cfg):
             try:
                 check_route(lv['mws'], ['_ignored'], lv.get('res') or [], NULL_EP_SIG, None)
             except Reject as r:
-                r.cyclic = cyc_null
+                r.cyclic = cyc_null or cyclic
                 raise
             cyclic = cyclic or cyc_null
             stack = merge(lv['mws'], stack)
